@@ -280,8 +280,12 @@ func (cc *Chaincode) batchedTxExecute(
 		return &proto.TxResponse{Id: binaryTxID, Method: pending.GetMethod(), Error: &ee},
 			&proto.BatchTxEvent{Id: binaryTxID, Method: pending.GetMethod(), Error: &ee}
 	} else if err != nil {
-		if delErr := stub.DelState(key); delErr != nil {
-			log.Errorf("failed deleting key %s from state: %s", key, delErr.Error())
+		// no record was found under this id: there is nothing to delete (the key is empty,
+		// and deleting the empty key makes the whole batch fail on CouchDB)
+		if key != "" {
+			if delErr := stub.DelState(key); delErr != nil {
+				log.Errorf("failed deleting key %s from state: %s", key, delErr.Error())
+			}
 		}
 		ee := proto.ResponseError{Error: "function and args loading error: " + err.Error()}
 		span.SetStatus(codes.Error, err.Error())
